@@ -6,6 +6,16 @@ Model/); every `theorem` of this file is an obligation counted by ./check C20.
 import EzdxfVerif.Model.Text
 import EzdxfVerif.Gen.TextTables
 import EzdxfVerif.Lemmas.Text
+import EzdxfVerif.Lemmas.TextTotal
+import EzdxfVerif.Lemmas.TextAgree
+import EzdxfVerif.Lemmas.TextEditor
+import EzdxfVerif.Lemmas.TextLines
+import EzdxfVerif.Lemmas.TextPara
+import EzdxfVerif.Lemmas.TextSpec
+import EzdxfVerif.Lemmas.TextEditorX
+import EzdxfVerif.Lemmas.TextTokens
+import EzdxfVerif.Lemmas.TextLinesSpec
+import EzdxfVerif.Lemmas.TextCtx
 
 namespace EzdxfVerif.Props.C20
 open EzdxfVerif.Text
@@ -70,134 +80,15 @@ theorem split_full_chunk_no_caret (size : Nat) (h : 2 ≤ size) (s : Str) :
     · exact ih c hmem hl
 
 #guard splitMText 3 (by decide) "ab^cd^".toList = ["ab".toList, "^cd".toList, "^".toList]
+-- observation (the code as it is): only FULL chunks never end in a caret; with two carets at the boundary the
+-- shortened chunk ends in the first one, the caret pair "^^" is separated (joining restores it)
+#guard splitMText 3 (by decide) "a^^b".toList = ["a^".toList, "^b".toList]
 
 /-! ## RE_FLOAT matches only what `float()` accepts (the statement the regex typo violated) -/
 
-private theorem frun_append (q : Nat) (a b : Str) : frun q (a ++ b) = frun (frun q a) b := by
-  simp [frun, List.foldl_append]
-
-private theorem frun_digits (q : Nat) (ds : Str) (h : ∀ c ∈ ds, isDigit c = true)
-    (hq : q = 2 ∨ q = 3 ∨ q = 6) : frun q ds = q := by
-  induction ds with
-  | nil => rfl
-  | cons c t ih =>
-    have hc := h c (by simp)
-    have ht : ∀ c ∈ t, isDigit c = true := fun x hx => h x (by simp [hx])
-    have : fstep q c = q := by
-      rcases hq with rfl | rfl | rfl <;> simp [fstep, hc]
-    simp only [frun, List.foldl_cons, this]
-    exact ih ht
-
-private theorem frun_digits_ne (q : Nat) (ds : Str) (h : ∀ c ∈ ds, isDigit c = true) (hne : ds ≠ [])
-    (hq : q = 0 ∨ q = 1 ∨ q = 4 ∨ q = 5) :
-    frun q ds = if q = 0 ∨ q = 1 then 2 else 6 := by
-  cases ds with
-  | nil => exact absurd rfl hne
-  | cons c t =>
-    have hc := h c (by simp)
-    have ht : ∀ c ∈ t, isDigit c = true := fun x hx => h x (by simp [hx])
-    rcases hq with rfl | rfl | rfl | rfl <;>
-      simp only [frun, List.foldl_cons, fstep, hc] <;>
-      simp <;> first | exact frun_digits 2 t ht (by simp) | exact frun_digits 6 t ht (by simp)
-
-private theorem mem_takeWhile_prop (p : Char → Bool) (l : Str) : ∀ c ∈ l.takeWhile p, p c = true := by
-  induction l with
-  | nil => simp
-  | cons a t ih =>
-    intro c hc
-    simp only [List.takeWhile] at hc
-    split at hc
-    · simp only [List.mem_cons] at hc
-      rcases hc with rfl | hc
-      · assumption
-      · exact ih c hc
-    · simp at hc
-
-private theorem spanDigits_all (s : Str) : ∀ c ∈ (spanDigits s).1, isDigit c = true :=
-  mem_takeWhile_prop isDigit s
-
-private theorem sign_not_digit (c : Char) (h : c = '+' ∨ c = '-') : isDigit c = false := by
-  rcases h with rfl | rfl <;> decide
-
-private theorem frun_optSign (s : Str) :
-    frun 0 (optSign s).1 = 0 ∨ frun 0 (optSign s).1 = 1 := by
-  unfold optSign; split
-  · split
-    · rename_i c t h
-      right
-      simp [frun, fstep, sign_not_digit c h, h]
-    · left; rfl
-  · left; rfl
-
-private theorem frun4_optSign (s : Str) :
-    frun 4 (optSign s).1 = 4 ∨ frun 4 (optSign s).1 = 5 := by
-  unfold optSign; split
-  · split
-    · rename_i c t h
-      right
-      simp [frun, fstep, sign_not_digit c h, h]
-    · left; rfl
-  · left; rfl
-
-private theorem frun_optFrac (s : Str) :
-    frun 2 (optFrac s).1 = 2 ∨ frun 2 (optFrac s).1 = 3 := by
-  unfold optFrac; split
-  · split
-    · rename_i c t h
-      right
-      subst h
-      have : frun 2 ('.' :: (spanDigits t).1) = frun 3 (spanDigits t).1 := by
-        simp [frun, fstep]; rfl
-      rw [this]
-      exact frun_digits 3 _ (spanDigits_all t) (by simp)
-    · left; rfl
-  · left; rfl
-
-private theorem frun_optExp (q : Nat) (hq : q = 2 ∨ q = 3) (s : Str) :
-    frun q (optExp s).1 = q ∨ frun q (optExp s).1 = 6 := by
-  unfold optExp; split
-  · split
-    · split
-      · left; rfl
-      · rename_i e t he hne
-        right
-        have hstep : fstep q e = 4 := by
-          have hd : isDigit e = false := by rcases he with rfl | rfl <;> decide
-          have h1 : ¬ (e = '+' ∨ e = '-') := by rcases he with rfl | rfl <;> decide
-          have h2 : ¬ (e = '.') := by rcases he with rfl | rfl <;> decide
-          rcases hq with rfl | rfl <;> simp [fstep, hd, h1, h2, he]
-        have : frun q (e :: ((optSign t).1 ++ (spanDigits (optSign t).2).1))
-            = frun (frun 4 (optSign t).1) (spanDigits (optSign t).2).1 := by
-          rw [← frun_append]
-          simp [frun, hstep]
-        rw [this]
-        rcases frun4_optSign t with h | h <;> rw [h]
-        · simpa using frun_digits_ne 4 _ (spanDigits_all _) hne (by simp)
-        · simpa using frun_digits_ne 5 _ (spanDigits_all _) hne (by simp)
-    · left; rfl
-  · left; rfl
-
 /-- every non-empty match of RE_FLOAT is a string `float()` accepts -/
-theorem matchFloat_valid (s : Str) (h : (matchFloat s).1 ≠ []) : pyFloatOk (matchFloat s).1 = true := by
-  unfold matchFloat at *
-  simp only at *
-  split at h
-  · exact absurd rfl h
-  · rename_i hne
-    simp only [hne, if_false]
-    unfold pyFloatOk
-    simp only [frun_append]
-    have hs := frun_optSign s
-    have hd : frun (frun 0 (optSign s).1) (spanDigits (optSign s).2).1 = 2 := by
-      rcases hs with h0 | h0 <;> rw [h0]
-      · simpa using frun_digits_ne 0 _ (spanDigits_all _) hne (by simp)
-      · simpa using frun_digits_ne 1 _ (spanDigits_all _) hne (by simp)
-    rw [hd]
-    rcases frun_optFrac (spanDigits (optSign s).2).2 with hf | hf <;> rw [hf]
-    · rcases frun_optExp 2 (by simp) (optFrac (spanDigits (optSign s).2).2).2 with he | he <;>
-        rw [he] <;> simp
-    · rcases frun_optExp 3 (by simp) (optFrac (spanDigits (optSign s).2).2).2 with he | he <;>
-        rw [he] <;> simp
+theorem matchFloat_valid (s : Str) (h : (matchFloat s).1 ≠ []) : pyFloatOk (matchFloat s).1 = true :=
+  Text.matchFloat_valid s h
 
 /-- the matcher consumes exactly the matched text -/
 theorem matchFloat_split (s : Str) : (matchFloat s).1 ++ (matchFloat s).2 = s := matchFloat_append s
@@ -207,79 +98,14 @@ example : pyFloatOk "1:.5".toList = false := by decide     -- what the typo rege
 
 /-! ## MTextParser never raises -/
 
-private theorem pyFloat_match (s : Str) (h : (matchFloat s).1 ≠ []) : pyFloat (matchFloat s).1 = .ok () := by
-  simp [pyFloat, matchFloat_valid s h]
-
-private theorem paraTabs_ok (s : Str) : paraTabs s = .ok () := by
-  fun_induction paraTabs s with
-  | case1 => rfl
-  | case2 c r h ih => exact ih
-  | case3 c r h he ih => rw [dif_pos he]; exact ih
-  | case4 c r h he ih =>
-    rw [dif_neg he]
-    have hne : (matchFloat (c :: r)).1 ≠ [] := by
-      intro h0; apply he; simp [paraFloatExpr, h0]
-    have : (paraFloatExpr (c :: r)).1 = (matchFloat (c :: r)).1 := by simp [paraFloatExpr, hne]
-    simp only [this, pyFloat_match _ hne, bind, Except.bind]
-    exact ih
-
-private theorem paraLoop_ok (s : Str) : paraLoop s = .ok () := by
-  fun_induction paraLoop s with
-  | case1 => rfl
-  | case2 c r h e he ih => exact ih
-  | case3 c r h e he ih =>
-    have hne : (matchFloat r).1 ≠ [] := by
-      intro h0; apply he; simp [e, paraFloatExpr, h0]
-    have : e.1 = (matchFloat r).1 := by simp [e, paraFloatExpr, hne]
-    simp only [this, pyFloat_match _ hne, bind, Except.bind]
-    exact ih
-  | case4 r hq ih => exact ih
-  | case5 r hq ht => exact paraTabs_ok r
-  | case6 c r h hq ht ih => exact ih
-
 /-- no property command can raise -/
 theorem parseProperties_no_error (cmd : Char) (tail : Str) (e : PyErr) :
-    parseProperties cmd tail ≠ some (.error e) := by
-  unfold parseProperties
-  split; · simp
-  split
-  · unfold parseAlign; split <;> simp
-  split; · simp [parseIntCmd]
-  split
-  · unfold parseFloatOrFactor
-    simp only
-    split
-    · simp
-    · rename_i hne
-      simp [pyFloat_match tail hne, bind, Except.bind]
-  split
-  · unfold parseOblique
-    simp only
-    split
-    · simp
-    · rename_i hne
-      simp [pyFloat_match tail hne, bind, Except.bind]
-  split
-  · simp [paraLoop_ok, bind, Except.bind]
-  split <;> simp
-
-private theorem map_ok {α β : Type} (f : α → β) (x : Except PyErr α) (h : ∃ a, x = .ok a) :
-    ∃ b, f <$> x = .ok b := by
-  obtain ⟨a, rfl⟩ := h
-  exact ⟨f a, rfl⟩
-
-private theorem scan_ok (sp : Special) (rest word : Str) : ∃ ts, scan sp rest word = .ok ts := by
-  fun_induction scan sp rest word
-  all_goals first
-    | exact ⟨_, rfl⟩
-    | assumption
-    | (apply map_ok; assumption)
-    | (rename_i hp; exact absurd hp (parseProperties_no_error _ _ _))
+    parseProperties cmd tail ≠ some (.error e) := Text.parseProperties_no_error cmd tail e
 
 /-- `MTextParser(content)` yields its token stream for every string: no Python error is reachable.
     Termination is part of the definition of `scan` (well-founded, no fuel). -/
 theorem parser_total (sp : Special) (s : Str) : ∃ ts, parse sp s = .ok ts :=
-  scan_ok sp (caretDecode s) []
+  Text.scan_ok sp (caretDecode s) []
 
 /-- `plain_mtext(content)` returns for every string -/
 theorem plain_total (sp : Special) (s : Str) : ∃ ls, plainMText sp s = .ok ls := by
@@ -299,15 +125,733 @@ theorem plain_total (sp : Special) (s : Str) : ∃ ls, plainMText sp s = .ok ls 
 theorem fast_plain_identity (sp : Special) (s : Str) (h : ∀ c ∈ s, isPlain c = true) :
     fastPlainMText sp s = s := Text.fast_plain_identity sp s h
 
-/-- ... and by `plain_mtext` (one paragraph), so the two decoders agree on plain content -/
-theorem plain_identity (sp : Special) (s : Str) (h : ∀ c ∈ s, isPlain c = true) (hne : s ≠ []) :
-    plainMText sp s = .ok [s] := Text.plain_identity sp s h hne
+/-- ... and by `plain_mtext` (one paragraph), so the two decoders agree on plain content.
+    (Since the fix of F16 the hypothesis `s ≠ []` of the earlier version is no longer needed.) -/
+theorem plain_identity (sp : Special) (s : Str) (h : ∀ c ∈ s, isPlain c = true) :
+    plainMText sp s = .ok [s] := Text.plain_identity sp s h
 
-theorem fast_eq_slow_plain (sp : Special) (s : Str) (h : ∀ c ∈ s, isPlain c = true) (hne : s ≠ []) :
+theorem fast_eq_slow_plain (sp : Special) (s : Str) (h : ∀ c ∈ s, isPlain c = true) :
     plainMText sp s = .ok [fastPlainMText sp s] := by
-  rw [Text.fast_plain_identity sp s h]; exact Text.plain_identity sp s h hne
+  rw [Text.fast_plain_identity sp s h]; exact Text.plain_identity sp s h
 
 example : ∀ c ∈ "Hello wörld 42".toList, isPlain c = true := by decide
+
+/-! ## fast_plain_mtext == plain_mtext on the whole class `agreeClass`
+
+`agreeClass sp d` (Model/Text.lean) is a decidable recogniser over the caret-decoded content: ordinary
+characters (≥ U+0020, LF), `{ }` in any nesting or unbalanced, `\\ \{ \}`, `\P \L \l \O \o \K \k \X`,
+`\S…;` with a backslash-free expression, every command with arguments whose argument text the parser
+consumes exactly up to the first ";" (`cmdAgree`: `\A \C \c \H \W \T \Q \p \f \F`), `%`, `%%c`.
+Both functions start with `caret_decode`, hence all caret sequences (`^I ^J ^M "^ "` …) are covered by
+stating the class on the decoded text.  Full strength: the statement is for every string of the class,
+no bound on length or nesting. -/
+
+/-- `plain_mtext(s)` (split=False) equals `fast_plain_mtext(s)` for every content of the class -/
+theorem fast_eq_slow (sp : Special) (s : Str) (h : agreeClass sp (caretDecode s) = true) :
+    plainMTextStr sp s = .ok (fastPlainMText sp s) := by
+  obtain ⟨ts, h1, h2⟩ := scan_agree sp (caretDecode s) [] h
+  unfold plainMTextStr plainMText parse fastPlainMText
+  rw [h1]
+  show Except.ok (joinNL (plainOfTokens ts [])) = _
+  rw [joinNL_plainOfTokens, h2]; rfl
+
+/-- the token stream itself: the flattened tokens are the fast result (any word under construction
+    is kept) -/
+theorem tokens_flat_eq_fast (sp : Special) (d word : Str) (h : agreeClass sp d = true) :
+    ∃ ts, scan sp d word = .ok ts ∧ flat ts = word ++ fastLoop sp d := scan_agree sp d word h
+
+/-- `"\n".join(plain_mtext(s, split=True))` is the paragraph list glued by LF, for EVERY string
+    (this is the statement F16 violated: a trailing empty paragraph was dropped) -/
+theorem plain_join_flat (sp : Special) (s : Str) :
+    ∃ ts, parse sp s = .ok ts ∧ plainMTextStr sp s = .ok (flat ts) := by
+  obtain ⟨ts, h⟩ := parser_total sp s
+  refine ⟨ts, h, ?_⟩
+  unfold plainMTextStr plainMText
+  rw [h]
+  show Except.ok (joinNL (plainOfTokens ts [])) = _
+  rw [joinNL_plainOfTokens]; rfl
+
+-- non-vacuity: a content with every construct of the class
+#guard agreeClass Gen.TextTables.special
+  (caretDecode "{\\H2.5x;\\C1;a \\fArial|b1|i0;b}\\P\\pxi-2,l2,qc,t4,c8;\\S1/2;\\L%%c 50%\\l\\\\\\{^J\\A1;\\T1.5;\\Q15;\\W0.8;}".toList)
+#guard fastPlainMText Gen.TextTables.special "{\\H2.5x;a\\P\\S1^ 2;%%d}^Jb".toList = "a\n1^2°\nb".toList
+-- the class is a recogniser, not `true`: constructs on which the decoders differ are rejected
+#guard !agreeClass Gen.TextTables.special "a\\~b".toList && !agreeClass Gen.TextTables.special "a\\Nb".toList
+  && !agreeClass Gen.TextTables.special "\\H1a;".toList && !agreeClass Gen.TextTables.special "\\C1".toList
+  && !agreeClass Gen.TextTables.special "a\\".toList && !agreeClass Gen.TextTables.special "\\zx;".toList
+  && !agreeClass Gen.TextTables.special "%%".toList && !agreeClass Gen.TextTables.special "\\S1\\/2;".toList
+  && !agreeClass Gen.TextTables.special "\t".toList
+
+/-! ## `plain_mtext` for EVERY string is the string function `slowLoop`
+
+`slowLoop` (Model/Text.lean) has no tokens, no word under construction and no follow-up token: one
+equation per construct.  The theorem says that the whole token machinery (`MTextParser.parse` with
+`next_token`, `word_and_token`, the generator loop, and the paragraph assembly of `plain_mtext`) computes
+this function - for every content, unbounded. -/
+
+theorem plain_mtext_spec (sp : Special) (s : Str) :
+    plainMTextStr sp s = .ok (slowLoop sp (caretDecode s)) := by
+  obtain ⟨ts, h1, h2⟩ := scan_flat sp (caretDecode s) []
+  unfold plainMTextStr plainMText parse
+  rw [h1]
+  show Except.ok (joinNL (plainOfTokens ts [])) = _
+  rw [joinNL_plainOfTokens, h2]; rfl
+
+/-- where the two decoders differ, exactly: where the two string functions differ on the decoded text -/
+theorem fast_eq_slow_iff (sp : Special) (s : Str) :
+    plainMTextStr sp s = .ok (fastPlainMText sp s) ↔ slowLoop sp (caretDecode s) = fastLoop sp (caretDecode s) := by
+  rw [plain_mtext_spec]
+  constructor
+  · intro h; injection h
+  · intro h; rw [h]; rfl
+
+theorem slow_eq_fast_on_class (sp : Special) (d : Str) (h : agreeClass sp d = true) :
+    slowLoop sp d = fastLoop sp d := slowLoop_eq_fastLoop sp d h
+
+#guard slowLoop Gen.TextTables.special "a\\~b\\Nc\td\\H1e;f\\zg\\".toList = "a b\nc    de;f\\zg ".toList
+
+/-! ## the list form `plain_mtext(.., split=True)` for every string, and where it differs from the fast one -/
+
+/-- the paragraph list of `plain_mtext(s, split=True)` is the list of pieces of `slowItems` between the
+    breaks (`\P`, `\N`, LF characters); a LF that is part of a word (`\<LF>` printed verbatim) does not
+    break - for every string -/
+theorem plain_lines_spec (sp : Special) (s : Str) :
+    plainMText sp s = .ok (splitNone (slowItems sp (caretDecode s))) := by
+  obtain ⟨ts, h1, h2⟩ := scan_items sp (caretDecode s) []
+  unfold plainMText parse
+  rw [h1]
+  show Except.ok (plainOfTokens ts []) = _
+  rw [plainOfTokens_items, h2, consPara_nil _ (splitNone_ne_nil _)]; rfl
+
+/-- the list forms of both decoders are equal on the agreement class when no LF is a word character -/
+theorem fast_eq_slow_lines (sp : Special) (s : Str) (h : agreeClass sp (caretDecode s) = true)
+    (hlf : ∀ x ∈ slowItems sp (caretDecode s), x ≠ some '\n') :
+    plainMText sp s = .ok (splitNL (fastPlainMText sp s)) := by
+  rw [plain_lines_spec]
+  unfold fastPlainMText
+  rw [← slowLoop_eq_fastLoop sp _ h, ← slowItems_getD, splitNL_getD _ hlf]
+
+private theorem agree_unknown (sp : Special) (d : Char) (r2 : Str)
+    (hd : ¬(d = '\\' ∨ d = '{' ∨ d = '}')) (hn : ¬(d = 'N' ∨ d = '~')) (h1 : d ∉ oneCharCommands) (hs : d ≠ 'S')
+    (hp : parseProperties d r2 = none) (hsc : d ≠ ';') (hf : findIdx ';' r2 = none) :
+    agreeClass sp ('\\' :: d :: r2) = agreeClass sp r2 := by
+  have hc : cmdAgree d r2 = none := by simp [cmdAgree, hp]
+  conv => lhs; rw [agreeClass.eq_def]
+  simp only [↓reduceIte, hd, hn, h1, hs]
+  split
+  · rename_i r3 h; rw [hc] at h; cases h
+  · simp [hp, hsc, hf]
+
+/-- ... and the condition is needed: `\<LF>x` (written `\^Jx`) is in the class, the joined results are equal,
+    but `plain_mtext` keeps the LF inside the word while `fast_plain_mtext(.., split=True)` splits there -/
+theorem differ_lines_only (sp : Special) :
+    agreeClass sp (caretDecode "\\^Jx".toList) = true ∧
+    plainMText sp "\\^Jx".toList = .ok ["\\\nx".toList] ∧
+    splitNL (fastPlainMText sp "\\^Jx".toList) = ["\\".toList, "x".toList] := by
+  have hd : caretDecode "\\^Jx".toList = ['\\', '\n', 'x'] := by
+    simp [caretDecode, caretChar]
+  have hpp : parseProperties '\n' ['x'] = none := by simp [parseProperties, mem_stroke]
+  refine ⟨?_, ?_, ?_⟩
+  · rw [hd, agree_unknown sp '\n' ['x'] (by decide) (by decide) (by rw [mem_one]; decide) (by decide) hpp (by decide)
+      (by simp [findIdx])]
+    have hnil : agreeClass sp [] = true := by rw [agreeClass.eq_def]
+    rw [agree_copy sp 'x' [] (by decide) (by decide) (by decide) (by decide), hnil]
+    decide
+  · rw [plain_lines_spec, hd, slowItems_unknown sp '\n' ['x'] (by decide) (by decide) (by decide) (by decide) (by decide) (by decide) hpp]
+    rw [slowItems_char sp 'x' [] (by decide) (by decide) (by decide) (by decide) (by simp [specialAt]) (by decide), slowItems_nil]
+    simp [splitNone]
+  · unfold fastPlainMText
+    rw [hd, fastLoop_unterminated sp '\n' ['x'] (by decide) (by rw [mem_one]; decide) (by decide) (by decide) (by simp [findIdx])]
+    rw [fastLoop_copy sp 'x' [] (by decide) (by decide) (by decide) (by decide), fastLoop_nil]
+    simp [splitNL]
+
+/-- content without backslash and percent sign: characters, control characters, braces -/
+def simpleFrag (d : Str) : Bool := d.all (fun c => c != '\\' && c != '%')
+
+/-- on the backslash- and percent-free fragment the two decoders agree EXACTLY when there is no control
+    character other than LF (TAB becomes four blanks, the others one blank for `plain_mtext` only) -/
+private theorem agree_iff_no_control (sp : Special) (d : Str) (h : simpleFrag d = true) :
+    slowLoop sp d = fastLoop sp d ↔ ∀ c ∈ d, 32 ≤ c.toNat ∨ c = '\n' := by
+  induction d with
+  | nil => simp [slowLoop_nil, fastLoop_nil]
+  | cons c r ih =>
+    simp only [simpleFrag, List.all_cons, Bool.and_eq_true, bne_iff_ne, ne_eq] at h
+    obtain ⟨⟨hb, hp⟩, hr⟩ := h
+    have ih' := ih (by simpa [simpleFrag] using hr)
+    have hs : specialAt sp c r = none := by simp [specialAt, hp]
+    by_cases hbr : c = '{' ∨ c = '}'
+    · rw [slowLoop_brace sp c r hbr, fastLoop_brace sp c r hbr, ih']
+      have : 32 ≤ c.toNat := by rcases hbr with h | h <;> subst h <;> decide
+      simp [this]
+    · have e1 : c ≠ '{' := fun hh => hbr (Or.inl hh)
+      have e2 : c ≠ '}' := fun hh => hbr (Or.inr hh)
+      rw [fastLoop_copy sp c r hb e1 e2 hp]
+      by_cases ht : c = '\t'
+      · subst ht
+        rw [slowLoop_tab]
+        constructor
+        · intro hh; injection hh with h1 _; exact absurd h1 (by decide)
+        · intro hh
+          have h9 : ¬ (32 ≤ ('\t' : Char).toNat ∨ ('\t' : Char) = '\n') := by decide
+          exact absurd (hh '\t' (by simp)) h9
+      · by_cases hn : c = '\n'
+        · subst hn
+          rw [slowLoop_lf]
+          constructor
+          · intro hh; injection hh with _ h2
+            intro x hx
+            simp only [List.mem_cons] at hx
+            rcases hx with rfl | hx
+            · right; rfl
+            · exact ih'.mp h2 x hx
+          · intro hh
+            rw [ih'.mpr (fun x hx => hh x (by simp [hx]))]
+        · by_cases h32 : c.toNat < 32
+          · rw [slowLoop_ctl sp c r hb ht hn h32]
+            constructor
+            · intro hh; injection hh with h1 _
+              exfalso; subst h1; revert h32; decide
+            · intro hh
+              rcases hh c (by simp) with h' | h'
+              · omega
+              · exact absurd h' hn
+          · rw [slowLoop_char sp c r hb ht hn h32 hs hbr]
+            constructor
+            · intro hh; injection hh with _ h2
+              intro x hx
+              simp only [List.mem_cons] at hx
+              rcases hx with rfl | hx
+              · left; omega
+              · exact ih'.mp h2 x hx
+            · intro hh
+              rw [ih'.mpr (fun x hx => hh x (by simp [hx]))]
+
+
+/-- exact on the backslash- and percent-free fragment (characters, control characters, braces in any
+    arrangement): `plain_mtext(s) == fast_plain_mtext(s)` if and only if the decoded content has no control
+    character other than LF - the `if` part is `fast_eq_slow`, the `only if` part a completeness statement -/
+theorem fast_eq_slow_iff_no_control (sp : Special) (s : Str) (h : simpleFrag (caretDecode s) = true) :
+    plainMTextStr sp s = .ok (fastPlainMText sp s) ↔ ∀ c ∈ caretDecode s, 32 ≤ c.toNat ∨ c = '\n' := by
+  rw [fast_eq_slow_iff]
+  exact agree_iff_no_control sp _ h
+
+#guard simpleFrag (caretDecode "a{b}^Jc ^M".toList)
+
+/-! ## MTextEditor round trip: the decoders return exactly the words the builder was given
+
+`EdOp` (Model/Text.lean) has one constructor per builder method / constant; `EdOp.wf` says the arguments
+are in range (words without syntax characters, numbers as number texts - assumption: the Python text
+of a finite float matches RE_FLOAT completely, checked on the real code by stream X3).
+Full strength: every finite sequence of calls, no bound. -/
+
+/-- `plain_mtext(str(editor))` is the sequence of words, paragraph breaks as LF -/
+theorem editor_roundtrip (sp : Special) (ops : List EdOp) (h : ∀ o ∈ ops, o.wf = true) :
+    plainMTextStr sp (editorText ops) = .ok (editorWords ops) := by
+  obtain ⟨hc, hf⟩ := editor_class_and_fast sp ops h
+  rw [fast_eq_slow sp _ hc, hf]
+
+/-- ... and so is `fast_plain_mtext(str(editor))` -/
+theorem editor_roundtrip_fast (sp : Special) (ops : List EdOp) (h : ∀ o ∈ ops, o.wf = true) :
+    fastPlainMText sp (editorText ops) = editorWords ops :=
+  (editor_class_and_fast sp ops h).2
+
+/-- the parser reads back the argument of every command the editor writes, exactly up to its ";" -/
+theorem editor_command_args_consumed (o : EdOp) (h : o.wf = true) (d : Char) (args : Str)
+    (hi : Item.cmd d args ∈ o.items) (rest : Str) :
+    parseProperties d (args ++ ';' :: rest) = some (.ok rest) :=
+  (edop_items_wf o h _ hi).2.2 rest
+
+/-- text made of lines: `plain_mtext(escape_dxf_line_endings-style content)`: plain lines joined by `\P`
+    decode to the lines joined by LF (instance of the round trip with `append` and NEW_PARAGRAPH) -/
+theorem paragraphs_roundtrip (sp : Special) (a b : Str) (ha : a.all isPlain = true) (hb : b.all isPlain = true) :
+    plainMTextStr sp (a ++ '\\' :: 'P' :: b) = .ok (a ++ '\n' :: b) := by
+  have := editor_roundtrip sp [.append a, .newParagraph, .append b] (by
+    intro o ho
+    simp only [List.mem_cons, List.not_mem_nil, or_false] at ho
+    rcases ho with rfl | rfl | rfl
+    · exact ha
+    · rfl
+    · exact hb)
+  simpa [editorText, editorWords, renderItems, expectedItems, EdOp.items, Item.render, Item.expected] using this
+
+#guard (EdOp.font "Arial".toList true false).wf && (EdOp.scaleHeight "1.5".toList).wf && (EdOp.height "1e+16".toList).wf
+  && (EdOp.oblique "-15".toList).wf && (EdOp.stack "1".toList "2".toList '^').wf && (EdOp.aci "256".toList).wf
+  && (EdOp.paragraph (some "i-2,l2,qc,t4,c8,r12.5".toList)).wf && !(EdOp.height "inf".toList).wf
+  && !(EdOp.append "a\\b".toList).wf
+#guard editorText [.group "a".toList, .scaleHeight "2.5".toList, .stack "1".toList "2".toList '^', .newParagraph,
+    .underline "u".toList, .paragraph (some "i1".toList), .align '1']
+  = "{a}\\H2.5x;\\S1^ 2;\\P\\Lu\\l\\pxi1;\\A1;".toList
+#guard editorWords [.group "a".toList, .scaleHeight "2.5".toList, .stack "1".toList "2".toList '^', .newParagraph,
+    .underline "u".toList] = "a1^2\nu".toList
+
+/-! ## MTextEditor, part 2: TAB, NBSP, NEW_COLUMN and bullet lists (`plain_mtext` and, where defined, `fast_plain_mtext`) -/
+
+/-- every sequence of editor calls, now including `append(TAB)`, `append(NBSP)`, `append(NEW_COLUMN)` and
+    `bullet_list(...)`: `plain_mtext` returns the words (TAB as four blanks, NBSP as blank, NEW_COLUMN as LF) -/
+theorem editor_roundtrip_ext (sp : Special) (ops : List XOp) (h : ∀ o ∈ ops, o.wf = true) :
+    plainMTextStr sp (xEditorText ops) = .ok (xEditorWordsSlow ops) := by
+  rw [plain_mtext_spec, (xeditor_slow_fast sp ops h).1]
+
+/-- `fast_plain_mtext` returns the words with the TAB character, when NBSP / NEW_COLUMN are not used
+    (there it differs: `differ_nbsp`, `differ_new_column`) -/
+theorem editor_roundtrip_ext_fast (sp : Special) (ops : List XOp) (h : ∀ o ∈ ops, o.wf = true)
+    (hf : ∀ o ∈ ops, o.fastOk = true) :
+    fastPlainMText sp (xEditorText ops) = xEditorWordsFast ops :=
+  (xeditor_slow_fast sp ops h).2 hf
+
+private theorem rows_flatten (sep : Str) (rows : List (Str × Str)) :
+    (rows.map (fun x => [x.1, sep, x.2, ['\n']])).flatten.flatten =
+      (rows.map (fun r => r.1 ++ sep ++ r.2 ++ ['\n'])).flatten := by
+  induction rows with
+  | nil => rfl
+  | cons r t ih => simp [ih]
+
+/-- `MTextEditor().bullet_list(indent, bullets, content)` decodes to the lines "bullet TAB item" -/
+theorem bullet_list_roundtrip (sp : Special) (args : Option Str) (rows : List (Str × Str))
+    (h : (XOp.bulletList args rows).wf = true) :
+    plainMTextStr sp (xEditorText [.bulletList args rows]) =
+      .ok ((rows.map (fun r => r.1 ++ [' ', ' ', ' ', ' '] ++ r.2 ++ ['\n'])).flatten) ∧
+    fastPlainMText sp (xEditorText [.bulletList args rows]) =
+      (rows.map (fun r => r.1 ++ ['\t'] ++ r.2 ++ ['\n'])).flatten := by
+  have hw : ∀ o ∈ [XOp.bulletList args rows], o.wf = true := by simpa using h
+  have e1 : xEditorWordsSlow [.bulletList args rows] = (rows.map (fun r => r.1 ++ [' ', ' ', ' ', ' '] ++ r.2 ++ ['\n'])).flatten := by
+    rw [← rows_flatten [' ', ' ', ' ', ' '] rows]
+    cases args <;>
+      simp [xEditorWordsSlow, XOp.items, EdOp.items, XItem.expectedSlow, Item.expected, rowItems, List.flatten_append,
+        Function.comp_def]
+  have e2 : xEditorWordsFast [.bulletList args rows] = (rows.map (fun r => r.1 ++ ['\t'] ++ r.2 ++ ['\n'])).flatten := by
+    rw [← rows_flatten ['\t'] rows]
+    cases args <;>
+      simp [xEditorWordsFast, XOp.items, EdOp.items, XItem.expectedFast, Item.expected, rowItems, List.flatten_append,
+        Function.comp_def]
+  exact ⟨by rw [editor_roundtrip_ext sp _ hw, e1], by rw [editor_roundtrip_ext_fast sp _ hw (by simp [XOp.fastOk]), e2]⟩
+
+#guard xEditorText [.bulletList (some "i-1.5,l2,t2".toList) [("-".toList, "a".toList), ("-".toList, "b".toList)], .tab, .nbsp]
+  = "{\\pxi-1.5,l2,t2;-^Ia\\P-^Ib\\P}^I\\~".toList
+
+/-! ## token level: the parser reads back exactly the tokens the editor wrote
+
+`scanY` / `parseY` model `MTextParser(content, yield_property_commands=True)`: every accepted command
+becomes a PROPERTIES_CHANGED token that carries the command text.  `xEditorTokens ops` is the token
+stream the editor calls stand for: WORD / SPACE tokens of the words, NEW_PARAGRAPH, TABULATOR, NBSP,
+NEW_COLUMN, STACK (numerator, denominator, type) and one PROPERTIES_CHANGED token per command with
+exactly the argument text the editor wrote (`\H2.5x;`, `\fArial|b1|i0;`, `\pxi-1.5,l2,t2;` …). -/
+
+theorem editor_tokens_roundtrip (sp : Special) (ops : List XOp) (h : ∀ o ∈ ops, o.wfT = true) :
+    parseY sp (xEditorText ops) = .ok (xEditorTokens ops) := xeditor_tokens sp ops h
+
+/-- the default mode of the parser is the yield mode without the PROPERTIES_CHANGED tokens, for every string -/
+theorem yield_mode_erase (sp : Special) (s : Str) : eraseProps <$> parseY sp s = parse sp s :=
+  scanY_erase sp (caretDecode s) []
+
+/-- hence `MTextParser(content, yield_property_commands=True)` returns for every string, too -/
+theorem parserY_total (sp : Special) (s : Str) : ∃ ts, parseY sp s = .ok ts := by
+  obtain ⟨ts, h⟩ := parser_total sp s
+  have := yield_mode_erase sp s
+  rw [h] at this
+  cases hy : parseY sp s with
+  | ok a => exact ⟨a, rfl⟩
+  | error e => rw [hy] at this; cases this
+
+/-- ... and in the default mode the editor's tokens come back without the command tokens -/
+theorem editor_tokens_roundtrip_default (sp : Special) (ops : List XOp) (h : ∀ o ∈ ops, o.wfT = true) :
+    parse sp (xEditorText ops) = .ok (eraseProps (xEditorTokens ops)) := by
+  rw [← yield_mode_erase, editor_tokens_roundtrip sp ops h]; rfl
+
+#guard xEditorTokens [.op (.append "a b".toList), .op (.scaleHeight "2.5".toList), .op (.stack "1".toList "2".toList '^'),
+    .tab, .op (.group "c".toList), .op .newParagraph]
+  = [.word "a".toList, .space, .word "b".toList, .props "\\H2.5x;".toList, .stack "1".toList "2".toList "^".toList, .tab,
+     .word "c".toList, .newParagraph]
+#guard (XOp.op (.stack "1".toList "2".toList '/')).wfT && !(XOp.op (.stack "1/2".toList "3".toList '/')).wfT
+
+/-! ## MTextContext: the context object yielded with every token (Model/TextCtx.lean)
+
+`scanC` threads the parser state (current context, `_ctx_stack`, `_continue_stroke`) through the same
+recursion as `scanY` and attaches the current context to every token; float attributes are symbolic
+(`abs(float(f))`, `previous * abs(float(f))`), evaluated by the harness with CPython floats (stream X7). -/
+
+/-- the context has no influence on the tokens: forgetting the contexts gives the yield-mode token
+    stream, for every string and every parser state -/
+theorem contexts_do_not_change_tokens (sp : Special) (st : PState) (d word : Str) :
+    untag <$> scanC sp st d word = scanY sp d word := scanC_tokens sp st d word
+
+/-- every sequence of editor calls: `MTextParser(str(editor), yield_property_commands=True)` yields exactly
+    the expected tokens, each with the expected context (the word in front of a command still with the old
+    context, the PROPERTIES_CHANGED token and everything behind it with the new one) -/
+theorem editor_contexts_roundtrip (sp : Special) (ops : List XOp) (h : ∀ o ∈ ops, o.wfT = true) :
+    parseC sp (xEditorText ops) = .ok (xEditorCTokens ops) := xeditor_ctokens sp ops h
+
+/-- `{ … }`: behind the closing brace the context and the context stack are those from before the opening
+    brace, whatever commands the items in between contain (any number, no group markers in between) -/
+theorem group_restores_context (xs : List XItem) (st : PState) (h : ∀ x ∈ xs, x.noGroup = true) :
+    (xitemsState ([.base .openGroup] ++ xs ++ [.base .closeGroup]) st).ctx = st.ctx ∧
+    (xitemsState ([.base .openGroup] ++ xs ++ [.base .closeGroup]) st).stack = st.stack :=
+  group_restores xs st h
+
+/-- the effect of a command on the parser state does not depend on the text behind its ";" -/
+theorem command_effect_local (d : Char) (args rest : Str) (st : PState)
+    (hs : (d = 'p' ∨ d = 'f' ∨ d = 'F') → ∀ c ∈ args, c ≠ ';') :
+    applyCmd d (args ++ ';' :: rest) st = applyCmd d (args ++ [';']) st := applyCmd_rest d args rest st hs
+
+/-- no command touches the context stack -/
+theorem command_keeps_stack (d : Char) (r2 : Str) (st : PState) : (applyCmd d r2 st).stack = st.stack :=
+  applyCmd_stack d r2 st
+
+/-- all attributes outside `names` are equal (`continue_stroke` is refreshed by every command) -/
+def ctxEqExcept (names : List String) (a b : Ctx) : Prop :=
+  ("underline" ∈ names ∨ a.underline = b.underline) ∧ ("overline" ∈ names ∨ a.overline = b.overline) ∧
+  ("strike_through" ∈ names ∨ a.strike = b.strike) ∧ ("aci" ∈ names ∨ a.aci = b.aci) ∧ ("rgb" ∈ names ∨ a.rgb = b.rgb) ∧
+  ("align" ∈ names ∨ a.align = b.align) ∧ ("font_face" ∈ names ∨ a.font = b.font) ∧
+  ("cap_height" ∈ names ∨ a.capHeight = b.capHeight) ∧ ("width_factor" ∈ names ∨ a.widthFactor = b.widthFactor) ∧
+  ("char_tracking_factor" ∈ names ∨ a.charTracking = b.charTracking) ∧ ("oblique" ∈ names ∨ a.oblique = b.oblique) ∧
+  ("paragraph" ∈ names ∨ a.paragraph = b.paragraph)
+
+/-- frame conditions tied to the source: a command changes at most the context attributes that the AST of
+    its branch of `parse_properties` (and of the handler it calls) assigns -/
+theorem frame_tied : ∀ p ∈ Gen.TextTables.assigns, ∀ (r2 : Str) (st : PState),
+    ctxEqExcept p.2 (applyCmd p.1 r2 st).ctx st.ctx := by
+  intro p hp r2 st
+  simp only [Gen.TextTables.assigns, List.mem_cons, List.not_mem_nil, or_false] at hp
+  rcases hp with h | h | h | h | h | h | h | h | h | h | h | h | h | h | h | h <;> subst h <;>
+    (unfold applyCmd ctxEqExcept; simp only [Char.reduceEq, ↓reduceIte]
+     (try split) <;> (try split) <;> (try split) <;>
+       (refine ⟨?_, ?_, ?_, ?_, ?_, ?_, ?_, ?_, ?_, ?_, ?_, ?_⟩ <;> first | (right; rfl) | (left; decide) | (right; simp; done)))
+
+/-- the context carrying parser returns for every string -/
+theorem parserC_total (sp : Special) (s : Str) : ∃ ts, parseC sp s = .ok ts := by
+  obtain ⟨ts, h⟩ := parserY_total sp s
+  have := contexts_do_not_change_tokens sp {} (caretDecode s) []
+  unfold parseY at h
+  rw [h] at this
+  unfold parseC
+  cases hc : scanC sp {} (caretDecode s) [] with
+  | ok a => exact ⟨a, rfl⟩
+  | error e => rw [hc] at this; cases this
+
+/-! the editor's methods on the context (what the following tokens are yielded with), for all in-range arguments -/
+
+/-- `height(h)` sets the cap height to |h|; `scale_height(k)` multiplies it by |k|; `width_factor`,
+    `char_tracking_factor`, `oblique` set their attribute; nothing else changes (`continue_stroke` is
+    refreshed from the parser flag by every command) -/
+theorem editor_height_context (f : Str) (hf : isFloatText f = true) (st : PState) :
+    ((XItem.base (.cmd 'H' f)).cstep st).ctx = { st.ctx with capHeight := .abs f, continueStroke := st.cont } ∧
+    ((XItem.base (.cmd 'H' (f ++ ['x']))).cstep st).ctx =
+      { st.ctx with capHeight := .mul st.ctx.capHeight f, continueStroke := st.cont } ∧
+    ((XItem.base (.cmd 'W' f)).cstep st).ctx = { st.ctx with widthFactor := .abs f, continueStroke := st.cont } ∧
+    ((XItem.base (.cmd 'T' f)).cstep st).ctx = { st.ctx with charTracking := .abs f, continueStroke := st.cont } ∧
+    ((XItem.base (.cmd 'Q' f)).cstep st).ctx = { st.ctx with oblique := some f, continueStroke := st.cont } :=
+  ⟨cmd_height f hf st, cmd_scale_height f hf st, cmd_width_factor f hf st, cmd_char_tracking f hf st, cmd_oblique f hf st⟩
+
+/-- `aci(n)` / `color(name)` set the colour index and clear the rgb value; `rgb(..)` sets the rgb value -/
+theorem editor_color_context (ds : Str) (hd : ds.all isDigit = true) (hne : ds ≠ []) (hlen : ds.length ≤ intMaxStrDigits)
+    (st : PState) :
+    (natOfDigits ds < 257 →
+      ((XItem.base (.cmd 'C' ds)).cstep st).ctx = { st.ctx with aci := natOfDigits ds, rgb := none, continueStroke := st.cont }) ∧
+    ((XItem.base (.cmd 'c' ds)).cstep st).ctx =
+      { st.ctx with rgb := some (natOfDigits ds % 16777216), continueStroke := st.cont } :=
+  ⟨fun hn => cmd_aci ds hd hne hlen hn st, cmd_rgb ds hd hne hlen st⟩
+
+/-- `underline(text)`: `\L` switches the stroke (and `continue_stroke`) on for the text, `\l` restores the context -/
+theorem editor_underline_context (st : PState) (h : st.ctx.hasAnyStroke = false) :
+    (applyCmd 'L' [] st).ctx.underline = true ∧ (applyCmd 'L' [] st).ctx.continueStroke = true ∧
+    (applyCmd 'l' [] (applyCmd 'L' [] st)).ctx = { st.ctx with underline := false, continueStroke := false } :=
+  cmd_underline_on_off st h
+
+-- heights: absolute value replaces, factor multiplies; colour: `\C` clears rgb; the stroke flag leaks out of a group
+#guard ((xitemsState [.base (.cmd 'H' "2.5".toList), .base (.cmd 'H' "2x".toList)] {}).ctx.capHeight
+  == .mul (.abs "2.5".toList) "2".toList)
+#guard ((xitemsState [.base (.cmd 'c' "255".toList), .base (.cmd 'C' "1".toList)] {}).ctx.rgb == none)
+#guard ((xitemsState [.base .openGroup, .base (.one 'L'), .base .closeGroup, .base (.cmd 'C' "1".toList)] {}).ctx.continueStroke == true)
+
+/-! ## line endings: `escape_dxf_line_endings` (used by `safe_string`, `load_mtext_content`) and back -/
+
+/-- for every text made of plain characters, LF and CR: `plain_mtext(escape_dxf_line_endings(s))` and
+    `fast_plain_mtext(..)` return `s` without the CRs (the line structure is kept) -/
+theorem escape_roundtrip (sp : Special) (s : Str) (h : ∀ c ∈ s, isPlain c = true ∨ c = '\n' ∨ c = '\r') :
+    plainMTextStr sp (escapeLineEndings s) = .ok (s.filter (· ≠ '\r')) ∧
+    fastPlainMText sp (escapeLineEndings s) = s.filter (· ≠ '\r') := by
+  obtain ⟨h1, h2, h3⟩ := escape_class_fast sp s h
+  have hf : fastPlainMText sp (escapeLineEndings s) = s.filter (· ≠ '\r') := by
+    unfold fastPlainMText; rw [h1, h3]
+  exact ⟨by rw [fast_eq_slow sp _ (by rw [h1]; exact h2), hf], hf⟩
+
+/-- the escaped text contains no line ending character (a DXF string value must not) -/
+theorem escape_no_line_endings (s : Str) : ∀ c ∈ escapeLineEndings s, c ≠ '\n' ∧ c ≠ '\r' := escape_chars s
+
+theorem escape_idempotent (s : Str) : escapeLineEndings (escapeLineEndings s) = escapeLineEndings s :=
+  escape_id _ (escape_chars s)
+
+theorem safe_string_bounds (s : Str) (n : Nat) :
+    (safeString s n).length ≤ n ∧ ∀ c ∈ safeString s n, c ≠ '\n' ∧ c ≠ '\r' :=
+  ⟨by simp [safeString]; omega, fun c hc => escape_chars s c (List.mem_of_mem_take hc)⟩
+
+/-! ## TEXT / ATTRIB content: `fix_one_line_text`, `plain_text` -/
+
+/-- `fix_one_line_text` always returns a valid one line text and changes nothing on valid ones -/
+theorem fix_one_line_valid (s : Str) : isValidOneLine (fixOneLine s) = true := fixOneLine_valid s
+theorem fix_one_line_id (s : Str) (h : isValidOneLine s = true) : fixOneLine s = s := fixOneLine_id s h
+theorem fix_one_line_idempotent (s : Str) : fixOneLine (fixOneLine s) = fixOneLine s :=
+  fixOneLine_id _ (fixOneLine_valid s)
+
+/-- `plain_text` returns content without `%`, `^` and line breaks unchanged -/
+theorem plain_text_identity (sp : Special) (kou : Char → Bool) (s : Str)
+    (h : ∀ c ∈ s, c ≠ '%' ∧ c ≠ '^' ∧ c ≠ '\n' ∧ c ≠ '\r') : plainText sp kou s = s := by
+  unfold plainText
+  have h1 : caretDecode s = s := by
+    have := caretDecode_append_nocaret s [] (fun c hc => (h c hc).2.1)
+    simpa [caretDecode] using this
+  have h2 : fixOneLine s = s := fixOneLine_id s (by
+    unfold isValidOneLine
+    simp only [Bool.and_eq_true, List.all_eq_true, bne_iff_ne, ne_eq]
+    refine ⟨fun c hc => ⟨(h c hc).2.2.1, (h c hc).2.2.2⟩, ?_⟩
+    intro hl
+    have := List.mem_of_getLast? hl
+    exact (h _ this).2.1 rfl)
+  rw [h1, h2, plainTextLoop_id sp kou s (fun c hc => (h c hc).1)]
+
+/-- `%%c %%d %%p` (any case) decode to the special character -/
+theorem plain_text_special (sp : Special) (kou : Char → Bool) (code l : Char) (r : Str) (h : sp code = some l) :
+    plainTextLoop sp kou ('%' :: '%' :: code :: r) = l :: plainTextLoop sp kou r :=
+  plainTextLoop_special sp kou code l r h
+
+/-- `%%k %%o %%u` are dropped -/
+theorem plain_text_format_code (sp : Special) (kou : Char → Bool) (code : Char) (r : Str)
+    (h : sp code = none) (hk : kou code = true) :
+    plainTextLoop sp kou ('%' :: '%' :: code :: r) = plainTextLoop sp kou r :=
+  plainTextLoop_format sp kou code r h hk
+
+/-- every other `%%x` (also the `%%nnn` character codes, which ezdxf does not decode) stays verbatim:
+    only the first `%` is consumed, the scan continues with `%x…` -/
+theorem plain_text_unknown_code (sp : Special) (kou : Char → Bool) (code : Char) (r : Str)
+    (h : sp code = none) (hk : kou code = false) :
+    plainTextLoop sp kou ('%' :: '%' :: code :: r) = '%' :: plainTextLoop sp kou ('%' :: code :: r) :=
+  plainTextLoop_unknown sp kou code r h hk
+
+#guard plainText Gen.TextTables.special Gen.TextTables.kou "%%uab%%C%%065^".toList = "abØ%%065".toList
+#guard escapeLineEndings "a\r\nb\n".toList = "a\\Pb\\P".toList
+
+/-! ## ParagraphProperties: `tostring()` → `\p…;` → `parse_paragraph_properties` is the identity
+
+Stated on the value texts (`f"{x:g}"` out, matched RE_FLOAT expression in): for all properties whose
+numbers are number texts and whose alignment is one of `l r c j d`; `none` = default (omitted by
+`tostring()`); any number of tab stops of the three kinds.  Float-text assumption: the `:g` text of a
+finite float matches RE_FLOAT completely (checked on generated values by stream X5). -/
+
+theorem paragraph_properties_roundtrip (p : ParaProps) (h : p.Wf) :
+    (match p.toArgs with
+     | none => p = {}                                         -- tostring() == "" only for the default
+     | some a => paraParse a = p ∧ paraParse ('x' :: a) = p)  -- `\px` a `;` as written by tostring()
+    := para_roundtrip p h
+
+/-- the tab stop list alone: any number of left / center / right stops is read back in order -/
+theorem tab_stops_roundtrip (ts : List Tab) (h : ∀ t ∈ ts, t.Wf) :
+    paraTabVals (commaJoin (ts.map Tab.text)) [] = ts := by
+  simpa using paraTabVals_join ts h []
+
+#guard (let p : ParaProps := { indent := some "-1.5".toList, left := some "2".toList, align := some 'c',
+                               tabs := [.left "4".toList, .center "8.5".toList, .right "1e+06".toList] }
+        p.toArgs = some "i-1.5,l2,qc,t4,c8.5,r1e+06".toList && decide (paraParse ('x' :: "i-1.5,l2,qc,t4,c8.5,r1e+06".toList) = p))
+#guard (({} : ParaProps).toArgs = none)
+
+/-! ## split_mtext_string for every size: `size < 2` is rejected (before the fix: size 1 never returned
+    for content with a caret, size ≤ 0 returned chunks that do not join to the content) -/
+
+theorem split_small_size_rejected (size : Nat) (h : size < 2) (s : Str) :
+    splitMTextE size s = .error .valueError := by
+  unfold splitMTextE
+  rw [dif_neg (by omega)]
+
+theorem split_total (size : Nat) (s : Str) :
+    splitMTextE size s = .error .valueError ∨
+    ∃ chunks, splitMTextE size s = .ok chunks ∧ chunks.flatten = s ∧ ∀ c ∈ chunks, 0 < c.length ∧ c.length ≤ size := by
+  by_cases h : 2 ≤ size
+  · right
+    exact ⟨splitMText size h s, by simp [splitMTextE, h], split_join size h s, split_chunk_bounds size h s⟩
+  · left; simp [splitMTextE, h]
+
+/-! ## MTEXT content ↔ DXF tags: `export_mtext_content` then `load_mtext_content` -/
+
+/-- writing the content as group code 3/1 chunks and loading it again returns the content (with line
+    endings escaped, which is what both directions do); for every string -/
+theorem export_load_roundtrip (s : Str) :
+    loadMTextContent (exportMTextContent s) = escapeLineEndings s := by
+  unfold loadMTextContent exportMTextContent
+  obtain ⟨h3, h1⟩ := export_tags_shape (splitMText 250 (by decide) (escapeLineEndings s))
+  simp only at h3 h1 ⊢
+  rw [h3, h1, dropLast_getLast, split_join, escape_idempotent]
+
+/-- the written tags: at least one, every value at most 250 characters and free of line ending
+    characters, group code 1 exactly for the last one -/
+theorem export_tags_wellformed (s : Str) :
+    exportMTextContent s ≠ [] ∧
+    (∀ t ∈ exportMTextContent s, t.2.length ≤ 250 ∧ (∀ c ∈ t.2, c ≠ '\n' ∧ c ≠ '\r')) ∧
+    (∀ t ∈ (exportMTextContent s).dropLast, t.1 = 3) ∧ ((exportMTextContent s).getLast?.map (·.1)) = some 1 := by
+  have hb := split_chunk_bounds 250 (by decide) (escapeLineEndings s)
+  have hj := split_join 250 (by decide) (escapeLineEndings s)
+  have hmem : ∀ c ∈ splitMText 250 (by decide) (escapeLineEndings s), ∀ x ∈ c, x ≠ '\n' ∧ x ≠ '\r' := by
+    intro c hc x hx
+    apply escape_chars s
+    rw [← hj]
+    exact List.mem_flatten.mpr ⟨c, hc, hx⟩
+  unfold exportMTextContent
+  generalize splitMText 250 (by decide) (escapeLineEndings s) = chunks at *
+  refine ⟨by simp, ?_, ?_, by simp⟩
+  · intro t ht
+    simp only [List.mem_append, List.mem_map, List.mem_cons, List.not_mem_nil, or_false] at ht
+    rcases ht with ⟨c, hc, rfl⟩ | rfl
+    · have hc' : c ∈ chunks := (List.dropLast_sublist chunks).subset hc
+      exact ⟨(hb c hc').2, hmem c hc'⟩
+    · cases hl : chunks.getLast? with
+      | none => simp
+      | some c =>
+        have hc' : c ∈ chunks := List.mem_of_getLast? hl
+        simpa using ⟨(hb c hc').2, hmem c hc'⟩
+  · intro t ht
+    rw [List.dropLast_concat] at ht
+    simp only [List.mem_map] at ht
+    obtain ⟨c, _, rfl⟩ := ht
+    rfl
+
+#guard exportMTextContent "a\nb".toList = [(1, "a\\Pb".toList)]
+#guard (exportMTextContent (List.replicate 249 'a' ++ "^I".toList ++ List.replicate 300 'b')).map (fun t => (t.1, t.2.length))
+  = [(3, 249), (3, 250), (1, 52)]
+
+/-! ## where the two decoders genuinely differ (each construct excluded from `agreeClass`)
+
+Concrete contents, each replayed on the real code by the harness (`DIFFER` in harness/props/c20.py). -/
+
+private theorem pp_H1a : parseProperties 'H' "1a;".toList = some (.ok "a;".toList) := by rfl
+private theorem pp_H1 : parseProperties 'H' "1".toList = some (.ok []) := by rfl
+private theorem pp_z (r : Str) : parseProperties 'z' r = none := by simp [parseProperties, mem_stroke]
+
+private theorem scan_cmd_ok (sp : Special) (d : Char) (r2 r3 : Str)
+    (hd : ¬(d = '\\' ∨ d = '{' ∨ d = '}')) (h1 : d ≠ '~') (h2 : d ≠ 'P') (h3 : d ≠ 'N') (h4 : d ≠ 'X') (h5 : d ≠ 'S')
+    (hp : parseProperties d r2 = some (.ok r3)) :
+    scan sp ('\\' :: d :: r2) [] = scan sp r3 [] := by
+  rw [scan.eq_def]
+  simp only [↓reduceIte, hd, h1, h2, h3, h4, h5, ne_eq, not_true_eq_false, ↓reduceDIte]
+  split
+  · rename_i h; rw [hp] at h; cases h
+  · rename_i h; rw [hp] at h; cases h
+  · rename_i h; rw [hp] at h; cases h; rfl
+
+private theorem scan_cmd_unknown (sp : Special) (d : Char) (r2 : Str)
+    (hd : ¬(d = '\\' ∨ d = '{' ∨ d = '}')) (h1 : d ≠ '~') (h2 : d ≠ 'P') (h3 : d ≠ 'N') (h4 : d ≠ 'X') (h5 : d ≠ 'S')
+    (hp : parseProperties d r2 = none) :
+    scan sp ('\\' :: d :: r2) [] = scan sp r2 ['\\', d] := by
+  rw [scan.eq_def]
+  simp only [↓reduceIte, hd, h1, h2, h3, h4, h5, ne_eq, not_true_eq_false, ↓reduceDIte]
+  split
+  · rfl
+  · rename_i h; rw [hp] at h; cases h
+  · rename_i h; rw [hp] at h; cases h
+
+/-- `\~`: non breaking space for the parser, an unterminated command for the fast decoder -/
+theorem differ_nbsp (sp : Special) :
+    plainMTextStr sp "\\~".toList = .ok " ".toList ∧ fastPlainMText sp "\\~".toList = "\\~".toList := by
+  constructor
+  · simp [plainMTextStr, plainMText, parse, caretDecode, scan, plainOfTokens, joinNL, Functor.map, Except.map]
+  · simp [fastPlainMText, caretDecode, fastLoop, findIdx, mem_one]
+
+/-- `\N` (new column): a paragraph break for `plain_mtext`, a blank for `fast_plain_mtext` -/
+theorem differ_new_column (sp : Special) :
+    plainMTextStr sp "a\\Nb".toList = .ok "a\nb".toList ∧ fastPlainMText sp "a\\Nb".toList = "a b".toList := by
+  constructor
+  · simp [plainMTextStr, plainMText, parse, caretDecode, scan, plainOfTokens, joinNL, Functor.map, Except.map, specialAt]
+  · simp [fastPlainMText, caretDecode, fastLoop, findIdx, mem_one]
+
+/-- `^I` (TAB): four blanks vs. the TAB character -/
+theorem differ_tab (sp : Special) :
+    plainMTextStr sp "^I".toList = .ok "    ".toList ∧ fastPlainMText sp "^I".toList = "\t".toList := by
+  constructor
+  · simp [plainMTextStr, plainMText, parse, caretDecode, caretChar, scan, plainOfTokens, joinNL, Functor.map, Except.map, wordAnd]
+  · simp [fastPlainMText, caretDecode, caretChar, fastLoop]
+
+/-- a backslash at the end: a blank vs. nothing -/
+theorem differ_trailing_backslash (sp : Special) :
+    plainMTextStr sp "a\\".toList = .ok "a ".toList ∧ fastPlainMText sp "a\\".toList = "a".toList := by
+  constructor
+  · simp [plainMTextStr, plainMText, parse, caretDecode, scan, plainOfTokens, joinNL, Functor.map, Except.map, specialAt, wordAnd]
+  · simp [fastPlainMText, caretDecode, fastLoop]
+
+/-- an argument the parser does not accept in full: the rest is text for the parser, skipped by fast -/
+theorem differ_bad_argument (sp : Special) :
+    plainMTextStr sp "\\H1a;".toList = .ok "a;".toList ∧ fastPlainMText sp "\\H1a;".toList = [] := by
+  constructor
+  · have h := scan_cmd_ok sp 'H' "1a;".toList "a;".toList (by decide) (by decide) (by decide) (by decide) (by decide) (by decide) pp_H1a
+    have e : caretDecode "\\H1a;".toList = '\\' :: 'H' :: "1a;".toList := by simp [caretDecode]
+    simp only [plainMTextStr, plainMText, parse, e, h]
+    simp [scan, plainOfTokens, joinNL, Functor.map, Except.map, specialAt]
+  · simp [fastPlainMText, caretDecode, fastLoop, findIdx, mem_one]
+
+/-- a known command without terminator: removed by the parser, printed verbatim by fast
+    (the documented limitation of `fast_plain_mtext`) -/
+theorem differ_unterminated (sp : Special) :
+    plainMTextStr sp "\\H1".toList = .ok [] ∧ fastPlainMText sp "\\H1".toList = "\\H1".toList := by
+  constructor
+  · have h := scan_cmd_ok sp 'H' "1".toList [] (by decide) (by decide) (by decide) (by decide) (by decide) (by decide) pp_H1
+    have e : caretDecode "\\H1".toList = '\\' :: 'H' :: "1".toList := by simp [caretDecode]
+    simp only [plainMTextStr, plainMText, parse, e, h]
+    simp [scan, plainOfTokens, joinNL, Functor.map, Except.map]
+  · simp [fastPlainMText, caretDecode, fastLoop, findIdx, mem_one]
+
+/-- an unknown command in front of a later ";": verbatim for the parser, skipped by fast -/
+theorem differ_unknown_command (sp : Special) :
+    plainMTextStr sp "\\zb;".toList = .ok "\\zb;".toList ∧ fastPlainMText sp "\\zb;".toList = [] := by
+  constructor
+  · have h := scan_cmd_unknown sp 'z' "b;".toList (by decide) (by decide) (by decide) (by decide) (by decide) (by decide) (pp_z _)
+    have e : caretDecode "\\zb;".toList = '\\' :: 'z' :: "b;".toList := by simp [caretDecode]
+    simp only [plainMTextStr, plainMText, parse, e, h]
+    simp [scan, plainOfTokens, joinNL, Functor.map, Except.map, specialAt]
+  · simp [fastPlainMText, caretDecode, fastLoop, findIdx, mem_one]
+
+/-- `%%` at the end: kept by the parser, dropped by fast -/
+theorem differ_percent_end (sp : Special) :
+    plainMTextStr sp "%%".toList = .ok "%%".toList ∧ fastPlainMText sp "%%".toList = [] := by
+  constructor
+  · simp [plainMTextStr, plainMText, parse, caretDecode, scan, plainOfTokens, joinNL, Functor.map, Except.map, specialAt]
+  · simp [fastPlainMText, caretDecode, fastLoop]
+
+/-! ## differences that no continuation can repair
+
+After ANY content written in the editor's language (items: words, commands, groups, stacking …) a
+`\N` or a TAB makes the two decoders differ, whatever text follows: the outputs have a common prefix and
+then LF vs blank, resp. blank vs TAB. -/
+
+private theorem fastLoop_N (sp : Special) (r : Str) : fastLoop sp ('\\' :: 'N' :: r) = ' ' :: fastLoop sp r := by
+  conv => lhs; rw [fastLoop.eq_def]
+  simp [mem_one]
+
+private theorem base_slow_fast (sp : Special) (is : List Item) (h : ∀ i ∈ is, i.Wf) (r : Str) :
+    slowLoop sp (xRenderD (is.map .base) ++ r) = expectedItems is ++ slowLoop sp r ∧
+    fastLoop sp (xRenderD (is.map .base) ++ r) = expectedItems is ++ fastLoop sp r := by
+  have hw : ∀ x ∈ is.map XItem.base, x.Wf := by
+    intro x hx; simp only [List.mem_map] at hx; obtain ⟨i, hi, rfl⟩ := hx; exact h i hi
+  have hf : ∀ x ∈ is.map XItem.base, x.fastOk = true := by
+    intro x hx; simp only [List.mem_map] at hx; obtain ⟨i, _, rfl⟩ := hx; rfl
+  have e1 : ((is.map XItem.base).map XItem.expectedSlow).flatten = expectedItems is := by
+    simp [expectedItems, XItem.expectedSlow, Function.comp_def]
+  have e2 : ((is.map XItem.base).map XItem.expectedFast).flatten = expectedItems is := by
+    simp [expectedItems, XItem.expectedFast, Function.comp_def]
+  exact ⟨by rw [xitems_slow sp _ r hw, e1], by rw [xitems_fast sp _ r hw hf, e2]⟩
+
+theorem differ_new_column_anywhere (sp : Special) (is : List Item) (h : ∀ i ∈ is, i.Wf) (r : Str) :
+    slowLoop sp (xRenderD (is.map .base) ++ '\\' :: 'N' :: r) ≠ fastLoop sp (xRenderD (is.map .base) ++ '\\' :: 'N' :: r) := by
+  obtain ⟨h1, h2⟩ := base_slow_fast sp is h ('\\' :: 'N' :: r)
+  rw [h1, h2, slowLoop_N, fastLoop_N]
+  intro hh
+  have := List.append_cancel_left hh
+  injection this with h3 _
+  exact absurd h3 (by decide)
+
+theorem differ_tab_anywhere (sp : Special) (is : List Item) (h : ∀ i ∈ is, i.Wf) (r : Str) :
+    slowLoop sp (xRenderD (is.map .base) ++ '\t' :: r) ≠ fastLoop sp (xRenderD (is.map .base) ++ '\t' :: r) := by
+  obtain ⟨h1, h2⟩ := base_slow_fast sp is h ('\t' :: r)
+  rw [h1, h2, slowLoop_tab, fastLoop_copy sp '\t' r (by decide) (by decide) (by decide) (by decide)]
+  intro hh
+  have := List.append_cancel_left hh
+  injection this with h3 _
+  exact absurd h3 (by decide)
 
 /-! ## ties of the hand-written model to the generated tables (regenerated from source each run) -/
 
@@ -323,5 +867,63 @@ theorem one_char_commands_tied : Gen.TextTables.oneCharCommands.toList = oneChar
 theorem special_letters_plain :
     Gen.TextTables.specialList.all (fun p => decide (32 < p.2) && p.2 != 123 && p.2 != 125 && p.2 != 92 && p.2 != 37) = true := by
   decide
+
+/-! ## command dispatch extracted from the AST of `parse_properties` / `next_token` vs. the model -/
+
+/-- the model function for a handler kind (kinds are computed from the handler bodies by
+    `extract_dispatch` in harness/props/c20.py) -/
+def kindModel (kind : String) (tail : Str) : Option (Except PyErr Str) :=
+  if kind = "stroke" then some (.ok tail)
+  else if kind = "get+term" then some (parseAlign tail)
+  else if kind = "int+term" then some (parseIntCmd tail)
+  else if kind = "float_x+term" then some (parseFloatOrFactor tail)
+  else if kind = "float+term" then some (parseOblique tail)
+  else if kind = "expr-floats" then
+    some (do paraLoop (extractExpr false tail).1; .ok (extractExpr false tail).2)
+  else if kind = "expr" then some (.ok (extractExpr false tail).2)
+  else none
+
+/-- every letter of the extracted if-chain is dispatched by the model to the handler of the same kind -/
+theorem dispatch_tied : ∀ p ∈ Gen.TextTables.dispatch, ∀ tail, parseProperties p.1 tail = kindModel p.2 tail := by
+  intro p hp tail
+  simp only [Gen.TextTables.dispatch, List.mem_cons, List.not_mem_nil, or_false] at hp
+  rcases hp with h | h | h | h | h | h | h | h | h | h | h | h | h | h | h | h <;> subst h <;>
+    simp [parseProperties, kindModel, mem_stroke]
+
+/-- ... and every other letter is an unknown command (`raise UnknownCommand`) -/
+theorem dispatch_complete (c : Char) (h : c ∉ Gen.TextTables.dispatch.map (·.1)) (tail : Str) :
+    parseProperties c tail = none := by
+  simp only [Gen.TextTables.dispatch, List.map_cons, List.map_nil, List.mem_cons, List.not_mem_nil, or_false,
+    not_or] at h
+  obtain ⟨h1, h2, h3, h4, h5, h6, h7, h8, h9, h10, h11, h12, h13, h14, h15, h16⟩ := h
+  have e : ∀ n : Nat, ∀ k : Char, Char.ofNat n = k → (¬ c = Char.ofNat n) → c ≠ k := fun n k hk hn => hk ▸ hn
+  have a1 := e 76 'L' (by decide) h1; have a2 := e 108 'l' (by decide) h2; have a3 := e 79 'O' (by decide) h3
+  have a4 := e 111 'o' (by decide) h4; have a5 := e 75 'K' (by decide) h5; have a6 := e 107 'k' (by decide) h6
+  have a7 := e 65 'A' (by decide) h7; have a8 := e 67 'C' (by decide) h8; have a9 := e 99 'c' (by decide) h9
+  have a10 := e 72 'H' (by decide) h10; have a11 := e 87 'W' (by decide) h11; have a12 := e 81 'Q' (by decide) h12
+  have a13 := e 84 'T' (by decide) h13; have a14 := e 112 'p' (by decide) h14; have a15 := e 102 'f' (by decide) h15
+  have a16 := e 70 'F' (by decide) h16
+  simp [parseProperties, mem_stroke, a1, a2, a3, a4, a5, a6, a7, a8, a9, a10, a11, a12, a13, a14, a15, a16]
+
+def tokOf (name : String) : Option Token :=
+  if name = "NBSP" then some .nbsp else if name = "NEW_PARAGRAPH" then some .newParagraph
+  else if name = "NEW_COLUMN" then some .newColumn else if name = "WRAP_AT_DIMLINE" then some .wrapAtDimline
+  else none
+
+/-- the commands that `next_token` turns into a token of their own -/
+theorem token_cmds_tied : ∀ p ∈ Gen.TextTables.tokenCmds, ∀ (sp : Special) (r : Str),
+    match tokOf p.2 with
+    | some tok => scan sp ('\\' :: p.1 :: r) [] = (fun ts => tok :: ts) <$> scan sp r []
+    | none => p = ('S', "parse_stacking") := by
+  intro p hp sp r
+  simp only [Gen.TextTables.tokenCmds, List.mem_cons, List.not_mem_nil, or_false] at hp
+  rcases hp with h | h | h | h | h <;> subst h <;> simp [tokOf] <;> (rw [scan.eq_def]; simp)
+
+/-- the character sets the functions test with `in` are the ones the model uses (`"\\{}"` escapes,
+    `"^/#"` stacking types, `"012"` alignments, `"{}"` group markers, `"kou"` TEXT format codes) -/
+theorem in_sets_tied : Gen.TextTables.inSets =
+    [("next_token", ["\\{}"]), ("parse_stacking", ["^/#"]), ("parse_align", ["012"]),
+     ("fast_plain_mtext", ["\\{}", "{}", "ONE_CHAR_COMMANDS"]), ("plain_text", ["kou"]),
+     ("MTextEditor.stack", ["^/#"])] := by decide
 
 end EzdxfVerif.Props.C20
